@@ -40,8 +40,6 @@ def selftest_trace(ctx, module, cfgname, cfg, trace, name):
     idxs = [i for i, e in enumerate(lines) if e.get("ev") != "Reset"]
     if not idxs:
         raise ToolError("empty trace %s" % trace)
-    i = idxs[len(idxs) // 2]
-
     def bump(v):
         # corrupt the last scalar leaf
         if isinstance(v, dict):
@@ -66,16 +64,22 @@ def selftest_trace(ctx, module, cfgname, cfg, trace, name):
             return True, v + 1
         return False, v
 
-    if isinstance(lines[i].get("ok"), bool):
-        lines[i]["ok"] = not lines[i]["ok"]          # the verdict always matters
-        ok = True
-    elif lines[i].get("ev") == "Look" and isinstance(lines[i].get("i"), int):
-        lines[i]["i"] += 1                           # the RESULT of a lookup (an argument may be corrupted into an equivalent one)
-        ok = True
-    else:
-        ok, _ = bump(lines[i])
+    # the middle event, or the next one after it that has a logged field to corrupt
+    mid = len(idxs) // 2
+    ok = False
+    for i in idxs[mid:] + idxs[:mid]:
+        if isinstance(lines[i].get("ok"), bool):
+            lines[i]["ok"] = not lines[i]["ok"]          # the verdict always matters
+            ok = True
+        elif lines[i].get("ev") == "Look" and isinstance(lines[i].get("i"), int):
+            lines[i]["i"] += 1                           # the RESULT of a lookup (an argument may be corrupted into an equivalent one)
+            ok = True
+        else:
+            ok, _ = bump(lines[i])
+        if ok:
+            break
     if not ok:
-        raise ToolError("selftest: nothing to corrupt in event %d of %s" % (i, trace))
+        raise ToolError("selftest: nothing to corrupt in %s" % trace)
     bad = trace + ".corrupt"
     with open(bad, "w") as f:
         for e in lines:
